@@ -745,9 +745,13 @@ class ConfigDict(Config):
 
 def _format_string(value: bytes) -> bytes:
     if (
-        value.startswith((b" ", b"\t"))
-        or value.endswith((b" ", b"\t"))
+        # the reader strips leading and trailing whitespace of any kind
+        value != value.strip()
+        # both comment characters end an unquoted value
         or b"#" in value
+        or b";" in value
+        # a carriage return is only preserved inside quotes
+        or b"\r" in value
     ):
         return b'"' + _escape_value(value) + b'"'
     else:
@@ -821,7 +825,6 @@ def _parse_string(value: bytes) -> bytes:
 def _escape_value(value: bytes) -> bytes:
     """Escape a value."""
     value = value.replace(b"\\", b"\\\\")
-    value = value.replace(b"\r", b"\\r")
     value = value.replace(b"\n", b"\\n")
     value = value.replace(b"\t", b"\\t")
     value = value.replace(b'"', b'\\"')
